@@ -209,6 +209,9 @@ func (t *InProc) RoundTrip(req *http.Request) (*http.Response, error) {
 	sreq := req.Clone(ctx)
 	sreq.Body = io.NopCloser(bytes.NewReader(body))
 	sreq.ContentLength = int64(len(body))
+	if len(req.TransferEncoding) > 0 {
+		sreq.ContentLength = -1 // chunked: the length is not known in advance
+	}
 	sreq.RequestURI = req.URL.RequestURI()
 	if sreq.Host == "" {
 		sreq.Host = req.URL.Host
@@ -281,6 +284,11 @@ func (t *InProc) Do(ctx context.Context, method, url string, hdr map[string]stri
 	for k, v := range hdr {
 		if k == "Host" {
 			req.Host = v
+			continue
+		}
+		if k == "Transfer-Encoding" {
+			req.TransferEncoding = []string{v}
+			req.ContentLength = -1
 			continue
 		}
 		req.Header.Set(k, v)
